@@ -49,27 +49,6 @@ Definition flat_ok (g : gschema) (ty : string) (sels : list node) : bool :=
   nodup_str (map n_alias sels) && forallb (node_ok g (RObj ty)) sels.
 
 
-(** ** the non-federated object.  The world has one plain object type, "Leaf" ([ALeaf val tag]: fields val, tag):
-    it is registered without a key and without _federation by every service whose fields return it, so the
-    gateway can never hop below it. *)
-Definition is_leaf (o : string) : bool := String.eqb o "Leaf".
-
-(** [svc] serves every field of the plain object *)
-Definition serves_leaf (g : gschema) (svc : string) : bool :=
-  forallb (fun e => let '(ty, _, _, owners) := e in negb (is_leaf ty) || existsb (String.eqb svc) owners) (g_fields g).
-
-Definition plain_ok (g : gschema) : bool :=
-  (* the fields of the plain object are scalars and not subject to the ServiceSelector *)
-  forallb (fun e => let '(ty, f, rty, _) := e in
-     negb (is_leaf ty) ||
-     (match rty with RScalar => true | _ => false end &&
-      match selector_of g ty f with None => true | Some _ => false end)) (g_fields g) &&
-  (* whoever serves a field that returns the plain object serves all of its fields (it registered the object) *)
-  forallb (fun e => let '(_, _, rty, owners) := e in
-     match rty with RObj o => negb (is_leaf o) || forallb (serves_leaf g) owners | _ => true end) (g_fields g) &&
-  (* it is not a member of a union *)
-  forallb (fun e => negb (existsb is_leaf (snd e))) (g_unions g).
-
 (** what the transparency theorem needs of [fed_ok] (the rest of it -- who has _federation on what -- is what
     makes the plans executable on real services: Props/C06.subquery_closed) *)
 Definition fed_ok0 (g : gschema) : bool :=
